@@ -268,3 +268,107 @@ func init() {
 			return obs
 		}})
 }
+
+func init() {
+	register(&Rule{ID: "PARSE.depth-bound", Floor: 2,
+		Doc: "the parser's nesting bound cannot be absent: every rdparser.Parser value in the module is built by a composite literal that sets maxDepth to a positive constant (all reader modes go through the one constructor), no other code stores to maxDepth, and the recursion guard is the plain comparison of depth with maxDepth whose true edge returns an error (not a conjunction that a zero bound switches off) — so deeply nested input is refused in every reader mode instead of exhausting the Go stack",
+		Run: func(c *Ctx) []Obligation {
+			pt := c.LookupType("parser/rdparser.Parser")
+			maxF := c.LookupField("parser/rdparser.Parser.maxDepth")
+			depthF := c.LookupField("parser/rdparser.Parser.depth")
+			if pt == nil || maxF == nil || depthF == nil {
+				return []Obligation{anchorMissing("PARSE.depth-bound", "rdparser.Parser / maxDepth / depth")}
+			}
+			var obs []Obligation
+			nlit := 0
+			for _, u := range c.Funcs(func(p string) bool { return true }) {
+				info := u.Pkg.TypesInfo
+				ord := &ordinal{}
+				ast.Inspect(u.Decl.Body, func(n ast.Node) bool {
+					switch x := n.(type) {
+					case *ast.CompositeLit:
+						tv, ok := info.Types[x]
+						if !ok {
+							return true
+						}
+						t := tv.Type
+						if p, ok := t.(*types.Pointer); ok {
+							t = p.Elem()
+						}
+						if types.Unalias(t) != types.Type(pt) {
+							return true
+						}
+						nlit++
+						construct := ord.next("Parser literal")
+						okMax := false
+						for _, el := range x.Elts {
+							if kv, ok := el.(*ast.KeyValueExpr); ok {
+								if id, ok := kv.Key.(*ast.Ident); ok && info.Uses[id] == maxF {
+									if v, ok := intConst(info, kv.Value); ok && v > 0 {
+										okMax = true
+									}
+								}
+							}
+						}
+						if okMax {
+							obs = append(obs, mkOb(c, "PARSE.depth-bound", u, construct, x, Proved, "maxDepth set to a positive constant", true))
+						} else {
+							obs = append(obs, mkOb(c, "PARSE.depth-bound", u, construct, x, Violated, "a Parser is built without a positive nesting bound: input with hundreds of thousands of opening brackets overflows the Go stack (fatal, not recoverable) in this reader mode", true))
+						}
+					case *ast.AssignStmt:
+						for i, l := range x.Lhs {
+							if FieldOfSelector(info, l) != maxF {
+								continue
+							}
+							construct := ord.next("store maxDepth")
+							if len(x.Rhs) == len(x.Lhs) {
+								if v, ok := intConst(info, x.Rhs[i]); ok && v > 0 {
+									obs = append(obs, mkOb(c, "PARSE.depth-bound", u, construct, x, Proved, "positive constant", false))
+									continue
+								}
+							}
+							obs = append(obs, mkOb(c, "PARSE.depth-bound", u, construct, x, Undecided, "the nesting bound is overwritten with a value that is not a positive constant: the bound can be switched off", true))
+						}
+					}
+					return true
+				})
+			}
+			if nlit == 0 {
+				obs = append(obs, Obligation{Rule: "PARSE.depth-bound", Func: "parser/rdparser", Construct: "Parser literals", Verdict: Undecided, Detail: "no composite literal of rdparser.Parser found"})
+			}
+			// the guard itself
+			nguard := 0
+			for _, u := range c.Funcs(func(p string) bool { return rel(p) == "parser/rdparser" }) {
+				info := u.Pkg.TypesInfo
+				fc := c.cfgOf(u, nil)
+				for _, b := range fc.G.Blocks {
+					cond := fc.CondOf(b)
+					if cond == nil || !fc.Live(b) {
+						continue
+					}
+					mentions := false
+					ast.Inspect(cond, func(n ast.Node) bool {
+						if se, ok := n.(*ast.SelectorExpr); ok && FieldOfSelector(info, se) == maxF {
+							mentions = true
+						}
+						return true
+					})
+					if !mentions {
+						continue
+					}
+					nguard++
+					be, ok := ast.Unparen(cond).(*ast.BinaryExpr)
+					plain := ok && (be.Op == token.GTR || be.Op == token.GEQ) && FieldOfSelector(info, be.X) == depthF && FieldOfSelector(info, be.Y) == maxF
+					if plain && fc.edgeReturns(cfgEdge{b, 0}, nil) {
+						obs = append(obs, mkOb(c, "PARSE.depth-bound", u, "depth guard", cond, Proved, "`"+types.ExprString(cond)+"` returns an error on its true edge", true))
+					} else {
+						obs = append(obs, mkOb(c, "PARSE.depth-bound", u, "depth guard", cond, Violated, "the nesting guard is `"+types.ExprString(cond)+"`, not the plain comparison of depth with maxDepth returning an error: a zero or negative bound disables it", true))
+					}
+				}
+			}
+			if nguard == 0 {
+				obs = append(obs, Obligation{Rule: "PARSE.depth-bound", Func: "parser/rdparser", Construct: "depth guard", Verdict: Violated, Detail: "no condition compares the parser's depth with maxDepth", Nontrivial: true})
+			}
+			return obs
+		}})
+}
